@@ -535,15 +535,15 @@ type ForgottenTopicsDataV7 struct {
 }
 
 type FetchRequestV7 struct {
-	ReplicaId           int32                 `json:"replicaId"`
-	MaxWaitMs           int32                 `json:"maxWaitMs"`
-	MinBytes            int32                 `json:"minBytes"`
-	MaxBytes            int32                 `json:"maxBytes"`
-	IsolationLevel      int8                  `json:"isolationLevel"`
-	SessionId           int32                 `json:"sessionId"`
-	SessionEpoch        int32                 `json:"sessionEpoch"`
-	Topics              []FetchTopicV5        `json:"topics"`
-	ForgottenTopicsData ForgottenTopicsDataV7 `json:"forgottenTopicsData"`
+	ReplicaId           int32                   `json:"replicaId"`
+	MaxWaitMs           int32                   `json:"maxWaitMs"`
+	MinBytes            int32                   `json:"minBytes"`
+	MaxBytes            int32                   `json:"maxBytes"`
+	IsolationLevel      int8                    `json:"isolationLevel"`
+	SessionId           int32                   `json:"sessionId"`
+	SessionEpoch        int32                   `json:"sessionEpoch"`
+	Topics              []FetchTopicV5          `json:"topics"`
+	ForgottenTopicsData []ForgottenTopicsDataV7 `json:"forgottenTopicsData"`
 }
 
 // Fetch Request (Version: 9)
@@ -562,30 +562,30 @@ type FetchTopicV9 struct {
 }
 
 type FetchRequestV9 struct {
-	ReplicaId           int32                 `json:"replicaId"`
-	MaxWaitMs           int32                 `json:"maxWaitMs"`
-	MinBytes            int32                 `json:"minBytes"`
-	MaxBytes            int32                 `json:"maxBytes"`
-	IsolationLevel      int8                  `json:"isolationLevel"`
-	SessionId           int32                 `json:"sessionId"`
-	SessionEpoch        int32                 `json:"sessionEpoch"`
-	Topics              []FetchTopicV9        `json:"topics"`
-	ForgottenTopicsData ForgottenTopicsDataV7 `json:"forgottenTopicsData"`
+	ReplicaId           int32                   `json:"replicaId"`
+	MaxWaitMs           int32                   `json:"maxWaitMs"`
+	MinBytes            int32                   `json:"minBytes"`
+	MaxBytes            int32                   `json:"maxBytes"`
+	IsolationLevel      int8                    `json:"isolationLevel"`
+	SessionId           int32                   `json:"sessionId"`
+	SessionEpoch        int32                   `json:"sessionEpoch"`
+	Topics              []FetchTopicV9          `json:"topics"`
+	ForgottenTopicsData []ForgottenTopicsDataV7 `json:"forgottenTopicsData"`
 }
 
 // Fetch Request (Version: 11)
 
 type FetchRequestV11 struct {
-	ReplicaId           int32                 `json:"replicaId"`
-	MaxWaitMs           int32                 `json:"maxWaitMs"`
-	MinBytes            int32                 `json:"minBytes"`
-	MaxBytes            int32                 `json:"maxBytes"`
-	IsolationLevel      int8                  `json:"isolationLevel"`
-	SessionId           int32                 `json:"sessionId"`
-	SessionEpoch        int32                 `json:"sessionEpoch"`
-	Topics              []FetchTopicV9        `json:"topics"`
-	ForgottenTopicsData ForgottenTopicsDataV7 `json:"forgottenTopicsData"`
-	RackId              string                `json:"rackId"`
+	ReplicaId           int32                   `json:"replicaId"`
+	MaxWaitMs           int32                   `json:"maxWaitMs"`
+	MinBytes            int32                   `json:"minBytes"`
+	MaxBytes            int32                   `json:"maxBytes"`
+	IsolationLevel      int8                    `json:"isolationLevel"`
+	SessionId           int32                   `json:"sessionId"`
+	SessionEpoch        int32                   `json:"sessionEpoch"`
+	Topics              []FetchTopicV9          `json:"topics"`
+	ForgottenTopicsData []ForgottenTopicsDataV7 `json:"forgottenTopicsData"`
+	RackId              string                  `json:"rackId"`
 }
 
 // Fetch Response (Version: 0)
